@@ -50,7 +50,7 @@ func reg(id string, c propCfg) {
 		c.ThorShards = 16
 	}
 	if c.QuickTimeout == 0 {
-		c.QuickTimeout = 8 * time.Minute
+		c.QuickTimeout = 5 * time.Minute
 	}
 	if c.ThorTimeout == 0 {
 		c.ThorTimeout = 40 * time.Minute
